@@ -22,6 +22,9 @@ func checkC18(p *load.Program, r *kit.Report) {
 	importRules(p, r, "C11", "a header the repository does not know must make the proof fail: load must not register the hashes of side branches it drops, or their headers verify as pruned history", 1,
 		func(o *kit.Obligation) bool { return strings.HasPrefix(o.Construct, "load/heights-only") }, "ORDER")
 	importRules(p, r, "C01", "`on the current best chain` is relative to repo.longest: Longest() must pick the branch with the most accumulated work", 1, nil, "ARGMAX")
+	importRules(p, r, "C09", "the height-map arm of the lookups compares with header(height): it must refuse heights beyond the tip, or a trimmed (invalidated) block still in the files verifies as best chain", 6, nil, "TIP-BOUND")
+	importRules(p, r, "C17", "a header removed by Trim must leave the branch's hash map, or GetHeader binds a proof that names its hash to the header that replaced it", 2, nil, "TRIM-SHAPE")
+	importRules(p, r, "C17", "a header removed by Trim must leave the branch's hash map, or GetHeader binds a proof that names its hash to the header that replaced it", 2, nil, "SHRINK-SIBLING")
 	r.NotDecided = "that the lookups answer truthfully for every history (C09); the merkle path arithmetic inside the dependency (CalculateRoot); proof corruption cases as values."
 	r.Rule("GUARD-DOM", "VerifyMerkleProof returns success only behind (a) the nil-error edge of CheckHeader(hash of the header the proof carries) or of GetHeader(*proof.BlockHash), and (b) the nil-error edge of proof.Verify(); neither-arm returns an error", 3)
 	r.Rule("ORDER", "on the hash-only arm the repository's header is installed into proof.BlockHeader before Verify(); Verify() is never called before the lookup", 2)
@@ -220,6 +223,8 @@ func checkC19(p *load.Program, r *kit.Report) {
 	importRules(p, r, "C01", "best-chain locator hashes are read from repo.longest: after a restart load must select the most-work branch (the branch index lists a displaced branch first until the next consolidation), or the locator walks the displaced chain", 1,
 		func(o *kit.Obligation) bool { return strings.Contains(o.Construct, "Repository.load") }, "WRITERS")
 	importRules(p, r, "C09", "a peer's reply connects only if ProcessHeader finds its previous hash in the branch that really holds it: Find answers from each branch's own heightsMap, which two branches must never share", 3, nil, "FRESH-MAP")
+	importRules(p, r, "C08", "no hash appears twice in a locator only if a re-delivered side-branch base is recognised as known: the duplicate lookup must search every branch, or a second branch with the same base is created", 2,
+		func(o *kit.Obligation) bool { return strings.HasSuffix(o.Construct, "-lookup-scope") }, "ORDER")
 	r.NotDecided = "that a protocol-conformant peer's reply connects to a header we hold (needs a peer model); whether sorting by height makes every duplicate adjacent; locator contents for a given history."
 	r.Rule("PROVENANCE", "every hash placed in a locator is AtHeight(h).Hash / Last().Hash of the branch, a split's BeforeHash, or AtHeight(PrunedLowestHeight()).Hash of a branch other than the best one", 5)
 	r.Rule("START-SHAPE", "the best-chain walk starts at Height()-1 (genesis alone at height 0), steps down by a positive, doubling delta, and tests len(result) >= max after every best-chain hash", 2)
